@@ -687,7 +687,10 @@ impl CompositionGraph {
         })?;
 
         // Add dependency edges to any existing defined types that reference this one
-        for (other_ty, other) in &self.defined {
+        // (in node order, so that the edge order does not depend on hash iteration order)
+        let mut others: Vec<_> = self.defined.iter().collect();
+        others.sort_by_key(|(_, other)| **other);
+        for (other_ty, other) in others {
             other_ty.visit_defined_types(&self.types, &mut |_, id| {
                 let dep_ty = Type::Value(ValueType::Defined(id));
                 if dep_ty == ty
